@@ -120,6 +120,8 @@ def observe (seq : Bool) (old new : State) (r : Ret) (isFree b : Bool) : String 
 def step (s : St) : List String → St × String
   | ["mode", "set"] => ({ s with seq := false }, "ok")
   | ["mode", "seq"] => ({ s with seq := true }, "ok")
+  -- the harness re-uses symbol objects in this case; invisible to the model (symbols are ids)
+  | ["mode", "reuse"] => (s, "ok")
   | "ins" :: ts =>
     match ts.mapM natTok with
     | none => (s, "bad-op")
